@@ -32,7 +32,7 @@ static const int kGenerated = 60; // generated valid models used as seeds too
 int64_t vh_case_count(const std::string &tier, uint64_t)
 {
     int64_t base = static_cast<int64_t>(corpus().size()) + kGenerated;
-    return base + (tier == "thorough" ? 60000 : 1100);
+    return base + (tier == "thorough" ? 24000 : 1100);
 }
 
 static std::string dirOf(const std::string &p)
